@@ -734,7 +734,7 @@ fn drive(a: &Args) {
     } else {
         // every string over <= 3 symbols: up to length L0 for the five algorithms of the builder, L1 for the
         // other entry points (same constructions behind another API), L2 for the dictionary matcher
-        let (l0, l1, l2) = if a.thorough() { (8, 7, 6) } else { (7, 6, 5) };
+        let (l0, l1, l2) = if a.thorough() { (8, 7, 6) } else { (7, 5, 5) };
         let l0 = a.get_u64("small-len", l0) as usize;
         let algos: Vec<&'static str> = vec!["sab:sais", "sab:divsufsort", "sab:dc3", "sab:ls", "sab:adaptive"];
         let heavy: Vec<&'static str> = all.iter().cloned().filter(|s| s.starts_with("dict:")).collect();
